@@ -28,3 +28,7 @@ def replay_native(native):
     if "history" in native.get("args", {}):
         return cb_native.replay(native)
     return sched_native.replay(native)
+
+
+# thorough tier: deliberate edits that must turn an obligation red (applied to a scratch copy, never to /repo)
+MUTATIONS = [('contracts.callbacks', 'add_callbacks.__exit__', 'dask/callbacks.py', '            Callback.active.discard(c)', '            Callback.active.add(c)')]
